@@ -17,7 +17,7 @@ Q_Epochs     == {1, 2}
 Q_Bad        == {"short"}
 
 T_Users      == {"u1", "u2", "kc"}
-T_LockSeq    == <<"l1", "l2">>
+T_LockSeq    == <<"l1">>
 T_SignerSets == {{}, {"u1"}, {"ALPHA"}, {"CMT", "u2"}}
 T_Amounts    == {-1, 0, 1, 2}
 T_Untils     == {-1, 0, 2, 3}
